@@ -331,6 +331,50 @@ func c08(c *Ctx) {
 			}
 		}
 	}
+	// parts a value does not have: a move is refused (and nothing is emitted), never aimed at the bytes next to the value
+	{
+		sig := "func(s string, guard uint64, b []byte, a [2]uint32, c complex128, p *uint32) (g uint64, t string)"
+		type req struct {
+			desc string
+			comp func(ctx *build.Context) gotypes.Component
+		}
+		reqs := []req{
+			{"Param(s).Cap()", func(ctx *build.Context) gotypes.Component { return ctx.Param("s").Cap() }},
+			{"Return(t).Cap()", func(ctx *build.Context) gotypes.Component { return ctx.Return("t").Cap() }},
+			{"Param(a).Len()", func(ctx *build.Context) gotypes.Component { return ctx.Param("a").Len() }},
+			{"Param(a).Base()", func(ctx *build.Context) gotypes.Component { return ctx.Param("a").Base() }},
+			{"Param(c).Base()", func(ctx *build.Context) gotypes.Component { return ctx.Param("c").Base() }},
+			{"Param(guard).Index(0)", func(ctx *build.Context) gotypes.Component { return ctx.Param("guard").Index(0) }},
+			{"Param(guard).Real()", func(ctx *build.Context) gotypes.Component { return ctx.Param("guard").Real() }},
+			{"Param(b).Index(0)", func(ctx *build.Context) gotypes.Component { return ctx.Param("b").Index(0) }},
+			{"Param(a).Index(2)", func(ctx *build.Context) gotypes.Component { return ctx.Param("a").Index(2) }},
+			{"Param(p).Len()", func(ctx *build.Context) gotypes.Component { return ctx.Param("p").Len() }},
+			{"Param(s).Imag()", func(ctx *build.Context) gotypes.Component { return ctx.Param("s").Imag() }},
+		}
+		for _, rq := range reqs {
+			for _, st := range []bool{false, true} {
+				ctx := build.NewContext()
+				ctx.Function("f")
+				ctx.Signature(mksig(nil, sig))
+				r := ctx.GP64()
+				if st {
+					ctx.Store(r, rq.comp(ctx))
+				} else {
+					ctx.Load(rq.comp(ctx), r)
+				}
+				f, err := ctx.Result()
+				dir := map[bool]string{false: "Load", true: "Store"}[st]
+				idx := o.AddCase(Case{Key: "mov:nonexistent-part", Desc: dir + " of " + rq.desc + " in " + sig, Input: map[string]any{"dir": dir, "component": rq.desc}, Nontrivial: true})
+				if n := len(f.Functions()[0].Instructions()); err == nil || n != 0 {
+					txt := ""
+					if n > 0 {
+						txt = instrLine(f.Functions()[0].Instructions()[0])
+					}
+					o.Plan.GoViolations = append(o.Plan.GoViolations, GoViolation{Key: "mov:nonexistent-part", Desc: fmt.Sprintf("case %d: %s of %s, a part the value does not have, gives error %v and %d instruction(s) %s", idx, dir, rq.desc, err, n, txt), Replay: map[string]any{"dir": dir, "component": rq.desc, "signature": sig}})
+				}
+			}
+		}
+	}
 	// components of one held parent, several accessors deep, moved after all of them have been taken
 	{
 		sig := "func(a uint8, m struct{ Rows [2]struct{ Cell struct{ Lo uint8; Hi uint64 }; Tag uint16 } }) (r struct{ P struct{ Q struct{ R struct{ X uint32; Y uint64 } } } })"
